@@ -419,6 +419,130 @@ def _execute_list_index(spec):
     return _observe(_blank_out(expected), run)
 
 
+# ------------------------------------------------------------------------------------------------ ready-made items
+OBJECT_FAILURES = {"required-unset": ".url", "validator-fails": "", "required-unset-deep": ".deep.inner.token"}
+OBJECT_ROUTES = ("setattr", "dotted", "ctor", "append", "insert-front", "insert-middle", "setitem", "slice", "extend",
+                 "iadd")
+OBJECT_LOCATIONS = {"root": "items", "nested": "servers.endpoints", "in-outer-item": "groups[1].members"}
+OBJECT_SOURCES = ("stand-alone", "taken-from-another-list")
+
+
+def _unlucky(cfg):
+    if cfg.ok == 13:
+        raise ValueError("unlucky")
+
+
+def _object_schemas(list_kind):
+    """-> (root schema, factory of item configurations).  list_kind 'list' (ListField(Schema)) | 'tlist' (config type)"""
+    import cincoconfig as cc
+    item = cc.Schema()
+    item.ok = cc.IntField(default=0)
+    item.url = cc.StringField(required=True)
+    item.deep.inner.token = cc.StringField(required=True)
+    cc.validator(item)(_unlucky)
+    item_type = cc.make_type(item, "Item") if list_kind == "tlist" else item
+    group = cc.Schema()
+    group.ok = cc.IntField(default=0)
+    group.members = cc.ListField(item_type, default=list)
+    root = cc.Schema()
+    root.ok = cc.IntField(default=0)
+    root.items = cc.ListField(item_type, default=list)
+    root.servers.endpoints = cc.ListField(item_type, default=list)
+    root.groups = cc.ListField(group, default=list)
+    return root, item_type
+
+
+def _execute_config_object(spec):
+    """spec: kind 'config-object', list_kind, location, failure, route, source.  The list holds two valid ready-made
+    items; a ready-made configuration object that fails whole-configuration validation is put into it"""
+    import cincoconfig as cc
+    root, factory = _object_schemas(spec["list_kind"])
+    location, failure, route = spec["location"], spec["failure"], spec["route"]
+    state = {}
+
+    def good(ok):
+        obj = factory()
+        obj.url = "u"
+        obj.deep.inner.token = "t"
+        obj.ok = ok
+        return obj
+
+    def bad():
+        if spec["source"] == "taken-from-another-list":  # valid when it went into the other list, spoiled afterwards
+            other = root()
+            other.items = [good(3)]
+            obj = other.items[0]
+            obj.ok = 13
+            return obj
+        obj = factory()
+        if failure != "required-unset":
+            obj.url = "u"
+        if failure != "required-unset-deep":
+            obj.deep.inner.token = "t"
+        obj.ok = 13 if failure == "validator-fails" else 4
+        return obj
+
+    def prepare():
+        cfg = root()
+        if location == "root":
+            owner, key = cfg, "items"
+        elif location == "nested":
+            owner, key = cfg.servers, "endpoints"
+        else:
+            cfg.groups = [{"ok": 1}, {"ok": 2}]
+            owner, key = cfg.groups[1], "members"
+        if route not in ("ctor",):
+            setattr(owner, key, [good(1), good(2)])
+        state.update(cfg=cfg, owner=owner, key=key, lst=getattr(owner, key), bad=bad(), good=good(5))
+
+    try:
+        prepare()
+    except Exception:
+        out = _blank_out([])
+        out["status"] = "skipped"
+        return out
+    n = 2
+    # index = the position the item would take; while an item is validated for insert / item assignment / slice
+    # assignment it is not a member yet and the position after the last item (n) names it as well
+    indexes = {"setattr": [1], "dotted": [1], "ctor": [1], "append": [n], "insert-front": [0, n], "insert-middle": [1, n],
+               "setitem": [1, n], "slice": [1, n], "extend": [n + 1], "iadd": [n + 1]}[route]
+    expected = ["%s[%d]%s" % (OBJECT_LOCATIONS[location], i, OBJECT_FAILURES[failure]) for i in indexes]
+
+    def run():
+        cfg, owner, key, lst, item, ok_item = (state[k] for k in ("cfg", "owner", "key", "lst", "bad", "good"))
+        if route == "setattr":
+            setattr(owner, key, [ok_item, item])
+        elif route == "dotted":
+            if location == "root":
+                cfg["items"] = [ok_item, item]
+            elif location == "nested":
+                cfg["servers.endpoints"] = [ok_item, item]
+            else:
+                cfg["groups"][1]["members"] = [ok_item, item]
+        elif route == "ctor":
+            tree = {"root": {"items": [ok_item, item]}, "nested": {"servers": {"endpoints": [ok_item, item]}},
+                    "in-outer-item": {"groups": [{"ok": 1}, {"ok": 2, "members": [ok_item, item]}]}}[location]
+            root(**tree)
+        elif route == "append":
+            lst.append(item)
+        elif route == "insert-front":
+            lst.insert(0, item)
+        elif route == "insert-middle":
+            lst.insert(1, item)
+        elif route == "setitem":
+            lst[1] = item
+        elif route == "slice":
+            lst[0:1] = [ok_item, item]
+        elif route == "extend":
+            lst.extend([ok_item, item])
+        elif route == "iadd":
+            lst += [ok_item, item]
+        else:
+            raise ValueError(route)
+
+    return _observe(_blank_out(expected), run)
+
+
 def _route_class(route):
     if route in ("attr", "dotted"):
         return "assign"
@@ -436,6 +560,8 @@ def _execute(spec):
         return _execute_dict_key(spec)
     if spec["kind"] == "list-index":
         return _execute_list_index(spec)
+    if spec["kind"] == "config-object":
+        return _execute_config_object(spec)
     pos = [tuple(s) for s in spec["pos"]]
     route = spec["route"]
     value = _values()[spec["value"]]
@@ -532,7 +658,7 @@ def _judge(spec, out):
     if out["status"] != "rejected":
         return []
     route = spec["route"]
-    if spec["kind"] in ("dict-key", "list-index"):
+    if spec["kind"] in ("dict-key", "list-index", "config-object"):
         return _judge_container(spec, out)
     rc = _route_class(route)
     where = {"attr": "core:Config._set_value", "dotted": "core:Config._set_value", "ctor": "core:Config._set_value",
@@ -587,6 +713,18 @@ def _judge_container(spec, out):
         wk = "dict-key:%s/%s/%s" % (spec["key"], spec["mode"], route)
         what = "%s key %r (%s) in %s at %s via %s" % (spec["mode"], DICT_KEYS[spec["key"]], spec["key"], spec["leaf"],
                                                       out["expected_paths"][0], route)
+    elif spec["kind"] == "config-object":
+        where = {"setattr": "core:Config._set_value", "dotted": "core:Config._set_value", "ctor": "core:Config._set_value",
+                 "append": "fields.list_field:ListProxy.append", "insert-front": "fields.list_field:ListProxy.insert",
+                 "insert-middle": "fields.list_field:ListProxy.insert", "setitem": "fields.list_field:ListProxy.__setitem__",
+                 "slice": "fields.list_field:ListProxy.__setitem__", "extend": "fields.list_field:ListProxy.extend",
+                 "iadd": "fields.list_field:ListProxy.__iadd__"}[route]
+        wk = "config-object-item:%s/%s/%s%s%s" % (spec["failure"], route, spec["location"],
+                                                  "(config-type)" if spec["list_kind"] == "tlist" else "",
+                                                  "(from-another-list)" if spec["source"] != "stand-alone" else "")
+        what = "ready-made %s item (%s, %s) put into %s by %s" % (
+            "config-type" if spec["list_kind"] == "tlist" else "schema", spec["failure"], spec["source"],
+            OBJECT_LOCATIONS[spec["location"]], route)
     else:
         where = "core:Config.load_tree" if route == "load_tree" else "core:Config._set_value"
         wk = "list-index:%s%s%s/%s/%s" % (spec["history"], "(equal-items)" if spec.get("equal_items") else "",
@@ -598,7 +736,8 @@ def _judge_container(spec, out):
                  "%s: raised %s (%s), expected cincoconfig.ValidationError" % (what, out["exc_type"], out["text"]), wk)]
     if out["ref_path"] not in out["expected_paths"]:
         return [(where + "/raise:C15.ref-path",
-                 "%s: ValidationError.ref_path is %r, expected %r" % (what, out["ref_path"], out["expected_paths"][0]), wk)]
+                 "%s: ValidationError.ref_path is %r, expected %s"
+                 % (what, out["ref_path"], " or ".join(map(repr, out["expected_paths"]))), wk)]
     if not _text_ok(out["text"], out["ref_path"]):
         return [("core:ValidationError.__str__/post:C15.text-names-path",
                  "%s: str(ValidationError) = %r does not start with the reference path %r"
@@ -625,7 +764,8 @@ def rac(tier="quick", seed=0):
              "leaf `f` at that position; non-trivial iff the real library rejected the value (an exception was raised); "
              "routes whose format cannot carry the value are skipped and not counted; dict-key case = (position, key "
              "field kind, key, value- or key-rejected, dict route); list-index case = (position, insert/pop history, "
-             "target index class, route, equal-valued items or not)",
+             "target index class, route, equal-valued items or not); config-object case = (list kind, location, failure, "
+             "route, source of the object)",
         bound="16 positions (root, root ConfigType, nested schemas to depth 3, config types, lists of schemas / config "
               "types, item index 0/1, list in list) x 26 leaf kinds (every built-in field class, typed list/dict, friendly "
               "names, custom validator, include) x canonical rejected value x 11 routes (attr, dotted, ctor, load_tree, "
@@ -636,7 +776,11 @@ def rac(tier="quick", seed=0):
               "x 9 routes (setattr, dotted, ctor, load_tree, d[k]=v, update(dict), update(pairs), |=, setdefault) x 3 "
               "positions (root, 1 and 2 levels down); lists of schemas / config types: 13 histories of insert/append/pop/"
               "del/reverse on 3 items x first/middle/last x 3 routes x 5 positions x equal-valued or distinct items x "
-              "with/without a rejection on every item before the history",
+              "with/without a rejection on every item before the history; ready-made configuration objects as list items: "
+              "3 failures (required field unset, schema validator fails, required field unset two levels down) x 10 routes "
+              "(list assignment by attribute / dotted path / constructor, append, insert front/middle, lst[i] = obj, slice, "
+              "extend, +=) x 3 locations (root, sub-configuration, item of an outer list) x schema / config-type items x "
+              "stand-alone object or object taken from another list",
         tier=tier, seed=seed)
     leaves, _ = _leaf_table()
     routes_all = ["attr", "dotted", "ctor", "load_tree", "attr-after-load"] + ["loads:" + f for f in FORMATS]
@@ -720,6 +864,27 @@ def rac(tier="quick", seed=0):
                                      sample={"case": spec, "expected_paths": out["expected_paths"],
                                              "observed": [out["exc_type"], out["ref_path"]]}
                                      if (posname, history, target, route, equal, probe) == ("tlist", "insert-front", "middle", "attr", True, True) else None)
+                            for obligation, what, wk in _judge(spec, out):
+                                rec.violation(obligation=obligation, what=what, replay=dict(spec), witness_key=wk)
+        # (7) list items given as ready-made configuration objects that fail whole-configuration validation
+        for list_kind in ("list", "tlist"):
+            for location in OBJECT_LOCATIONS:
+                for failure in OBJECT_FAILURES:
+                    for route in OBJECT_ROUTES:
+                        for source in OBJECT_SOURCES:
+                            if source == "taken-from-another-list" and failure != "validator-fails":
+                                continue  # an item of another list was valid field by field when it got there
+                            spec = {"kind": "config-object", "posname": location, "pos": [], "list_kind": list_kind,
+                                    "location": location, "failure": failure, "route": route, "source": source}
+                            out = _execute(spec)
+                            if out["status"] == "skipped":
+                                continue
+                            rec.case(key=("config-object", list_kind, location, failure, route, source),
+                                     nontrivial=out["status"] == "rejected",
+                                     sample={"case": spec, "expected_paths": out["expected_paths"],
+                                             "observed": [out["exc_type"], out["ref_path"]]}
+                                     if (list_kind, location, failure, route, source) ==
+                                     ("list", "nested", "required-unset", "append", "stand-alone") else None)
                             for obligation, what, wk in _judge(spec, out):
                                 rec.violation(obligation=obligation, what=what, replay=dict(spec), witness_key=wk)
         # (4) malformed values of every type on every leaf kind
